@@ -673,6 +673,7 @@ func runC14(p *Program, r *Report) {
 	checkCoverageGate(p, r)
 	checkOutputLayout(p, r, or, "R14e", "(*MapPollard).GetMissingPositions", 0, "")
 	checkHeldTargetsUntouched(p, r)
+	checkHeldSetIsCallers(p, r, or, "R14k")
 	r.Rule("R14g", "SPARSE-LIST-CURSOR: the hashes supplied for the missing positions are consumed through their own cursor, advanced exactly where one is consumed, never indexed by the counter of the loop over all proof positions")
 	checkSparseCursor(p, r, "R14g")
 	r.Rule("R14h", "MISSING-DECIDED-BY-LOOKUP: every result of the missing-positions method for a non-empty request is reached through look-ups of the node store, never through a configuration shortcut")
@@ -686,6 +687,8 @@ func runC14(p *Program, r *Report) {
 		}
 		checkThreadedState(p, r, "R14i", es, 1)
 	}
+	r.Rule("R14j", "JOINT-PROOF-POSITIONS: the single-target proof-position helper is never called in a loop whose results are accumulated into one list (the proof of several targets is computed by the joint function)")
+	checkJointProofPositions(p, r, "R14j")
 }
 
 // checkHeldTargetsUntouched (R14f): the stand-alone GetMissingPositions is
@@ -1234,4 +1237,56 @@ func isStumpMethod(p *Program, f *ssa.Function) bool {
 func isUint64(t types.Type) bool {
 	b, ok := t.Underlying().(*types.Basic)
 	return ok && b.Kind() == types.Uint64
+}
+
+// checkHeldSetIsCallers (R14k): the stand-alone GetMissingPositions works out
+// what the caller already has from the targets of the proof it holds. The
+// list that is subtracted from the desired targets and the list handed to the
+// proof-position function as "held" must be those targets themselves (a sorted
+// copy: order class sorted(P) of the parameter's group), not something derived
+// from them by a step that changes the elements (de-twinning replaces held
+// leaves by their parent, which is then no longer removed from the request and
+// whose children are no longer counted as available).
+func checkHeldSetIsCallers(p *Program, r *Report, or *orderRun, rule string) {
+	r.Rule(rule, "HELD-SET-IS-THE-CALLERS: the held list that the stand-alone missing-positions function subtracts from the request and hands to the proof-position function is the sorted copy of the caller's proof targets, element for element")
+	fn := p.Func("GetMissingPositions")
+	if fn == nil {
+		r.MissingAnchor(rule, "GetMissingPositions", "stand-alone missing-positions function not found")
+		return
+	}
+	want := OC{ocSorted, "P"}
+	seen := map[string][]string{}
+	ok := map[string]bool{}
+	var pos = map[string]string{}
+	for _, e := range or.it.events {
+		if e.Kind != oevSink {
+			continue
+		}
+		inFn := e.Fn == fn
+		if !inFn && len(e.Stack) > 0 && strings.HasPrefix(e.Stack[0], "GetMissingPositions") {
+			inFn = true
+		}
+		if !inFn {
+			continue
+		}
+		if e.What != "ProofPositions#0" && e.What != "subtractSortedSlice#1" {
+			continue
+		}
+		seen[e.What] = append(seen[e.What], e.A.String())
+		if len(e.A) == 1 && e.A[want] {
+			ok[e.What] = true
+			pos[e.What] = posOf(p, e.In)
+		}
+	}
+	for _, what := range []string{"subtractSortedSlice#1", "ProofPositions#0"} {
+		key := "GetMissingPositions/" + what + "/held-set"
+		switch {
+		case ok[what]:
+			r.Discharge(rule, key, pos[what], "a call of "+what+" receives exactly the sorted copy of the caller's proof targets (class "+want.String()+")", true)
+		case len(seen[what]) == 0:
+			r.Undecided(rule, key, p.Pos(fn.Pos()), "no call of "+what+" is reached from the stand-alone missing-positions function: cannot tell how the held set is taken into account")
+		default:
+			r.Violate(rule, key, p.Pos(fn.Pos()), fmt.Sprintf("no call of %s receives the sorted copy of the caller's proof targets (classes seen: %s): the held set was replaced by a list with other elements, so held targets are not removed from the request or their positions are not counted as available", what, strings.Join(seen[what], "; ")), "in GetMissingPositions")
+		}
+	}
 }
